@@ -16,6 +16,7 @@ mod apis6;
 mod apis7;
 mod apis8;
 mod apis9;
+mod apis10;
 
 fn main() {
     std::panic::set_hook(Box::new(|_| {}));
